@@ -969,6 +969,7 @@ sPresetMap(
 		w = i - rs_lastcol;
 		nextpos += w * SUPERLU_MAX( rs_nrow, colcnt[k] );
 	    }
+	    SLU_MT_VERIF_EVENT(21, -1, j, nextpos - map_in_sup[j], map_in_sup[j]);
 	    w = i - j;
 	} else { /* Column j starts a supernode in H */
 	    w = super_bnd[j];
